@@ -123,13 +123,17 @@ Proof.
   - unfold f'. apply (SU_upd pq f ch); auto. apply L2. now apply (SU_get pq f).
 Qed.
 
-Theorem WFw_op_sort w ti p k rev deep : WFw w -> WFw (snd (op_sort w ti p k rev deep)).
+Theorem WFx_op_sort w ti p k rev deep : WFw w -> WFx w (snd (op_sort w ti p k rev deep)).
 Proof.
-  intros H. unfold op_sort. destruct (get_tree w ti) as [t|] eqn:Gt; [|exact H].
-  destruct (parent_path p (forest_of t)) as [pq|]; [|exact H].
-  destruct (get_ch pq (forest_of t)) as [ch|] eqn:G; [|exact H].
+  intros H. unfold op_sort. destruct (get_tree w ti) as [t|] eqn:Gt; [|exact (WFx_refl w H)].
+  destruct (parent_path p (forest_of t)) as [pq|]; [|exact (WFx_refl w H)].
+  destruct (get_ch pq (forest_of t)) as [ch|] eqn:G; [|exact (WFx_refl w H)].
   assert (L := sort_list_rel k rev deep ch). destruct (sort_list k rev deep ch) as [ch' failed]. cbn [fst snd] in *.
   unfold put_tree. assert (Wt := WFw_tree w ti t H Gt).
   destruct (WF_rearrange t pq ch ch' Wt G L) as (W' & P).
-  apply (WFw_put w ti t); auto. intros m Hm. left. now apply (Permutation_in _ (Permutation_sym P)).
+  apply (WFx_put w ti t); auto. intros m Hm. left. now apply (Permutation_in _ (Permutation_sym P)).
 Qed.
+
+Theorem WFw_op_sort w ti p k rev deep : WFw w -> WFw (snd (op_sort w ti p k rev deep)).
+Proof. intros H0. exact (proj1 (WFx_op_sort w ti p k rev deep H0)). Qed.
+
